@@ -76,6 +76,8 @@ fn c18_ffi_null_contracts() {
 /// itself are released exactly once, and the bytes equal the native API's.
 #[kani::proof]
 #[kani::unwind(8)]
+#[kani::stub(redirectionio::filter::HtmlFilterBodyAction::filter, html_filter_unreachable)]
+#[kani::stub(redirectionio::filter::HtmlFilterBodyAction::end, html_end_unreachable)]
 fn c18_ffi_body_filter_lifecycle() {
     let c: u8 = kani::any();
     kani::assume(c < 128);
